@@ -37,6 +37,23 @@ class LanguageTag(ParsableBase):
 
         self._subsequent_subtags = value
 
+    def __eq__(self, other):
+        if not isinstance(other, LanguageTag):
+            return NotImplemented
+
+        return (
+            self.primary_subtag == other.primary_subtag and
+            list(self.subsequent_subtags) == list(other.subsequent_subtags)
+        )
+
+    def __ne__(self, other):
+        result = self.__eq__(other)
+
+        return result if result is NotImplemented else not result
+
+    def __hash__(self):
+        return hash((self.primary_subtag, tuple(self.subsequent_subtags)))
+
     @classmethod
     def _parse(cls, parsable):
         parser = ParserText(parsable)
